@@ -79,6 +79,38 @@ def _report(ctx, case, findings, replay, observed):
         ctx.violate(key_of(case.cls_name, f), f"{case.cls_name} [{case.config}]: {f['what']}", dict(replay, finding=f["kind"] + "/" + f["name"]))
 
 
+class SubsetCase:
+    """The same zoo classifier case with a third declared class and training sets that observe different subsets of
+    the declared classes: the first fit sees {0, 1}, the second {1, 2} (labels shifted by one)."""
+
+    def __init__(self, case):
+        self._case = case
+
+    def __getattr__(self, name):
+        return getattr(self._case, name)
+
+    def build(self):
+        obj = self._case.build()
+        p = obj.get_params(deep=False)
+        if "classes" in p and p.get("cost_matrix") is None and p.get("class_prior") in (None, 0, 0.0):
+            obj.set_params(classes=[0, 1, 2])
+        return obj
+
+    def data(self, seed):
+        d = self._case.data(seed)
+        for k in ("y2",):
+            if k in d:
+                d[k] = d[k] + 1
+        return d
+
+
+def applicable_subset(case):
+    if case.family not in ("classifier", "classifier_ma"):
+        return False
+    p = case.build().get_params(deep=False)
+    return "classes" in p and p.get("classes") is not None and p.get("cost_matrix") is None and p.get("class_prior") in (None, 0, 0.0)
+
+
 def run_estimator_case(ctx, case, seed, observed, n_seq=1, seq_len=6):
     findings, info = oracles.estimator_refit_vs_fresh(case, seed)
     ctx.case(("refit", case.key, seed), bool(info.get("discriminating")), sample=dict(kind="refit-vs-fresh", case=case.key, seed=seed, discriminating=info.get("discriminating"), findings=[f["kind"] + "/" + f["name"] for f in findings]))
@@ -86,6 +118,14 @@ def run_estimator_case(ctx, case, seed, observed, n_seq=1, seq_len=6):
     if info.get("discriminating") is False:
         ctx.count("refit_not_discriminating")
     _report(ctx, case, findings, dict(oracle="refit", case=case.key, seed=seed), observed)
+    if applicable_subset(case):
+        try:
+            findings, info = oracles.estimator_refit_vs_fresh(SubsetCase(case), seed)
+        except Exception as e:  # noqa: BLE001  (the declared third class does not fit this configuration, e.g. nested estimators with their own `classes`)
+            findings, info = [], dict(raised=f"{type(e).__name__}")
+        ctx.case(("refit-subsets", case.key, seed), bool(info.get("discriminating")), sample=dict(kind="refit-vs-fresh, other observed class subset", case=case.key, seed=seed, findings=[f["kind"] + "/" + f["name"] for f in findings]))
+        ctx.count("refit_vs_fresh_class_subsets" + ("_raised" if "raised" in info else ""))
+        _report(ctx, case, findings, dict(oracle="refit-subsets", case=case.key, seed=seed), observed)
     for j in range(n_seq):
         sseed = seed * 1000 + j
         import random
@@ -230,6 +270,8 @@ def replay(payload):
         return 2
     if r["oracle"] == "refit":
         findings, _ = oracles.estimator_refit_vs_fresh(case, r["seed"])
+    elif r["oracle"] == "refit-subsets":
+        findings, _ = oracles.estimator_refit_vs_fresh(SubsetCase(case), r["seed"])
     elif r["oracle"] == "sequence":
         findings, _ = oracles.estimator_call_sequence(case, r["seed"], random.Random(r["sseed"] * 7 + len(case.key)), length=r.get("length", 6))
     elif r["oracle"] == "setparams":
